@@ -244,26 +244,43 @@ func c10Rules() []c10Rule {
 	}
 	nsAttr := []string{"network_mode", "ipc", "pid", "uts"}
 	extParam := []map[string]any{m("driver", "local"), m("driver_opts", m("type", "nfs")), m("labels", m("a", "b"))}
+	// among puts the offending entry at every position of a list of valid entries (first, middle, last, alone)
+	among := func(v int, bad any, good ...any) []any {
+		pos := (v / 3) % (len(good) + 2)
+		if pos == len(good)+1 {
+			return []any{bad}
+		}
+		out := append([]any{}, good[:pos]...)
+		out = append(out, bad)
+		return append(out, good[pos:]...)
+	}
 	return []c10Rule{
 		{Name: "dangling-network", Service: true,
-			Make: func(v int) (map[string]any, map[string]any) { return m("networks", []any{"ghostnet"}), nil },
+			Make: func(v int) (map[string]any, map[string]any) {
+				return m("networks", among(v, "ghostnet", "realnet", "default")), m("networks", m("realnet", nil))
+			},
 			Ctl: func(v int) (map[string]any, map[string]any) {
 				return m("networks", []any{"realnet"}), m("networks", m("realnet", nil))
 			}},
 		{Name: "dangling-volume", Service: true,
 			Make: func(v int) (map[string]any, map[string]any) {
-				return m("volumes", []any{[]any{"ghostvol:/data", m("type", "volume", "source", "ghostvol", "target", "/data")}[v%2]}), nil
+				ghost := []any{"ghostvol:/data", m("type", "volume", "source", "ghostvol", "target", "/data"), "ghostvol:/data:ro"}[v%3]
+				return m("volumes", among(v, ghost, "./bind:/b", m("type", "tmpfs", "target", "/t"), "/anon", "realvol:/r")), m("volumes", m("realvol", nil))
 			},
 			Ctl: func(v int) (map[string]any, map[string]any) {
 				return m("volumes", []any{"realvol:/data"}), m("volumes", m("realvol", nil))
 			}},
 		{Name: "dangling-secret", Service: true,
-			Make: func(v int) (map[string]any, map[string]any) { return m("secrets", []any{"ghostsec"}), nil },
+			Make: func(v int) (map[string]any, map[string]any) {
+				return m("secrets", among(v, []any{"ghostsec", m("source", "ghostsec", "target", "t")}[v%2], "realsec", m("source", "realsec", "target", "again"))), m("secrets", m("realsec", m("file", "./s")))
+			},
 			Ctl: func(v int) (map[string]any, map[string]any) {
 				return m("secrets", []any{"realsec"}), m("secrets", m("realsec", m("file", "./s")))
 			}},
 		{Name: "dangling-config", Service: true,
-			Make: func(v int) (map[string]any, map[string]any) { return m("configs", []any{m("source", "ghostcfg")}), nil },
+			Make: func(v int) (map[string]any, map[string]any) {
+				return m("configs", among(v, m("source", "ghostcfg"), "realcfg", m("source", "realcfg", "target", "/again"))), m("configs", m("realcfg", m("content", "x")))
+			},
 			Ctl: func(v int) (map[string]any, map[string]any) {
 				return m("configs", []any{"realcfg"}), m("configs", m("realcfg", m("content", "x")))
 			}},
@@ -276,17 +293,21 @@ func c10Rules() []c10Rule {
 			}},
 		{Name: "dangling-depends-on", Service: true,
 			Make: func(v int) (map[string]any, map[string]any) {
-				return m("depends_on", []any{[]any{"ghost"}, m("ghost", m("condition", "service_started")), m("ghost", m("condition", "service_started", "required", false))}[v%3]), nil
+				return m("depends_on", []any{among(v, "ghost", "db"), m("ghost", m("condition", "service_started"), "db", m("condition", "service_started")), m("ghost", m("condition", "service_started", "required", false))}[v%3]), nil
 			},
 			Ctl: func(v int) (map[string]any, map[string]any) { return m("depends_on", []any{"db"}), nil }},
 		{Name: "dangling-service-namespace", Service: true,
 			Make: func(v int) (map[string]any, map[string]any) { return m(nsAttr[v%len(nsAttr)], "service:ghost"), nil },
 			Ctl:  func(v int) (map[string]any, map[string]any) { return m(nsAttr[v%len(nsAttr)], "service:db"), nil }},
 		{Name: "dangling-link", Service: true,
-			Make: func(v int) (map[string]any, map[string]any) { return m("links", []any{"ghost:alias"}), nil },
-			Ctl:  func(v int) (map[string]any, map[string]any) { return m("links", []any{"db:alias"}), nil }},
+			Make: func(v int) (map[string]any, map[string]any) {
+				return m("links", among(v, "ghost:alias", "db:alias", "db")), nil
+			},
+			Ctl: func(v int) (map[string]any, map[string]any) { return m("links", []any{"db:alias"}), nil }},
 		{Name: "dangling-volumes-from", Service: true,
-			Make: func(v int) (map[string]any, map[string]any) { return m("volumes_from", []any{"ghost:ro"}), nil },
+			Make: func(v int) (map[string]any, map[string]any) {
+				return m("volumes_from", among(v, "ghost:ro", "db:ro", "container:outside")), nil
+			},
 			Ctl: func(v int) (map[string]any, map[string]any) {
 				return m("volumes_from", []any{"db:ro", "container:outside"}), nil
 			}},
